@@ -91,6 +91,23 @@ TWrite ==
                   ELSE IF hasD /\ ~drifted THEN drifted' = TRUE /\ UNCHANGED <<buf, drift>>
                   ELSE UNCHANGED <<buf, drifted, drift>>
 
+(* "X": a public write that ended with an exception because the output rejected data (injected fault).  The call    *)
+(* appended nothing of its own; whatever reached the output during it is a prefix of what was pending, the rest     *)
+(* stays pending (Encoder!ImplWriteFault).                                                                          *)
+TFault ==
+    /\ l <= N /\ Tr[l].e = "X"
+    /\ l' = l + 1
+    /\ UNCHANGED <<kind, execs, sink, buf, ret, want, drift>>
+    /\ drifted' = TRUE                          \* the code-level prediction of the staging level is not continued
+    /\ IF dirty THEN UNCHANGED <<hist, seen, dirty, viol>>
+       ELSE LET d == IF "d" \in DOMAIN Tr[l] THEN Expand(Tr[l].d) ELSE <<>> IN
+            IF IsPrefixOf(d, hist)
+            THEN /\ hist' = SubSeq(hist, Len(d) + 1, Len(hist)) /\ seen' = seen + Len(d)
+                 /\ UNCHANGED <<dirty, viol>>
+            ELSE /\ viol' = Note([l |-> l, prop |-> "C06,C16", what |-> "during a call that failed with an output error the output received bytes that are not the pending encodings",
+                                  op |-> Tr[l].op])
+                 /\ dirty' = TRUE /\ UNCHANGED <<hist, seen>>
+
 (* "T" rotate_output / "D" destructor: the closed output holds everything appended *)
 ClosedOK(all) == /\ Len(all) = seen + Len(hist)
                  /\ \A i \in 1..Len(hist) : all[seen + i] = hist[i]
@@ -122,7 +139,7 @@ TEnd ==
     /\ l' = l + 1
     /\ UNCHANGED <<evars, kind, seen, dirty, drifted, viol, drift, execs>>
 
-TraceNext == TReset \/ TWrite \/ TClose \/ TCrash \/ TEnd
+TraceNext == TReset \/ TWrite \/ TFault \/ TClose \/ TCrash \/ TEnd
 TraceSpec == TraceInit /\ [][TraceNext]_tvars
 
 TraceConsumed == TLCGet("stats").diameter - 1 = N
